@@ -8,7 +8,9 @@ area = "event"
 driver = "drv_event"
 cxx = False
 fixed_lines = 1
-rule = ("scripts = 'e new fb|nofb|builtin' followed by dispatcher ops (set/cset/clear/clearall/emit id|msg|none/hash/"
+rule = ("scripts = 'e new fb|nofb|builtin' followed by dispatcher ops (set/cset/clear/clearall/emit id|msg|cmd|none/hash/"
+        "hashf (mpt_dispatch_hash with the message in fragments a,b,c, each fragment in a block of exactly its size)/"
+        "emit cmd (the handler reached hands the message on with mpt_dispatch_hash and returns what that returned)/"
         "reserve/fini/drop (release the table through the array interface)/tcopy r (copy-construct the element of "
         "registration r through the content traits); second part: the C++ class mpt::dispatch (xe new/set/clear/get/"
         "setdef/seterr/reserve/emit/hash/del); the last operand of emit/hash is what the invoked handler returns, suffix z = it also "
@@ -16,12 +18,15 @@ rule = ("scripts = 'e new fb|nofb|builtin' followed by dispatcher ops (set/cset/
         "4 over the reduced one) over ids {0,1,2,djb2('a')} x handler results {0,1,2,3,-1,1z,3z}; stream 2 = "
         "boundary histories (ids 2^64-1/2^63/127/128/255/256, every reserve width, table growth at the 3rd/9th/"
         "14th element, raw tables created by reserve, sign-extended hash bytes, separators, white space); "
+        "nested dispatch for every start mode x command registered/unregistered/without text x handler results, fragmented "
+        "command messages split at every position into 2 and at every pair of positions into 3 fragments (header, leading "
+        "blanks, inside the command word, empty fragments, texts around the 128-byte scratch buffer); "
         "stream 3 = random histories of 6..40 ops over up to 24 ids; non-trivial = the code's log shows an event "
         "delivered to a registered (non-fallback) handler and at least one end-of-life call, per distinct script")
 assumptions = [
-    "handlers do not re-enter the dispatcher; a handler answers with an int (flags or negative error) and may clear the event id",
+    "a handler answers with an int (flags or negative error) and may clear the event id, or re-enters the dispatcher exactly once through mpt_dispatch_hash on the same event and returns its result (emit cmd); other re-entrance (registering/clearing from inside a handler) is not driven",
     "malloc never fails in the harness runs; the dispatcher has no fallback reply context (_ctx = NULL)",
-    "messages are one contiguous part (fragmented messages belong to C17)",
+    "emitted messages are one contiguous part; messages dispatched by hash may come in up to 16 fragments (mpt_message_read/mpt_message_argv as modelled for C17 in Impl/Message.lean)",
     "for separators that are not graphic characters (white-space splitting with quotes) the spec accepts any non-empty prefix of the payload as the command text; the model mirrors mpt_memtok and is compared with the code",
     "the fallback is the harness handler (registration 0), none, or the library's built-in unknownEvent (start mode builtin; its answers are part of the spec vocabulary)",
     "a reserved element is activated by the caller (handler + argument set) before anything else happens",
@@ -62,15 +67,16 @@ def _alphabet_full():
         ops.append("e emit none %s" % r)
         ops.append("e hash 000061 %s" % r)          # Output header, text "a"
         ops.append("e hash 043a20613a62 %s" % r)    # Command header, sep ':', " a:b"
+        ops.append("e emit cmd 000061 %s" % r)      # handler 0 hands the text "a" on
     ops += ["e emit msg - 1", "e hash 0000 1", "e hash 04 1", "e hash - 1", "e hash 00006100 1"]
     return ops
 
 
-def _alphabet_small():
+def _alphabet_small(tier):
     return ["e set 1", "e set 2", "e cset 1", "e clear 1", "e clear 2", "e clearall", "e fini", "e reserve 1", "e drop",
             "e emit id 1 0", "e emit id 1 1", "e emit id 1 3z", "e emit id 1 -1", "e emit id 2 1", "e emit id 0 1",
             "e emit msg 01 3", "e emit none 0", "e emit none 1", "e emit none 1z", "e set %d" % HA,
-            "e hash 000061 2", "e hash 000061 -1"]
+            "e hash 000061 2", "e hash 000061 -1"] + (["e emit cmd 010061 3"] if tier != "quick" else [])
 
 
 def _boundary():
@@ -158,11 +164,72 @@ def _boundary():
         for new in ("fb", "nofb", "builtin"):
             out.append(("b:traits:%s:%d" % (new, len(pre)), ["e new " + new] + pre + ["e tcopy 1", "e tcopy 2", "e tcopy 3", "e tcopy 0", "e tcopy 99", "e drop",
                                                                                "e emit id 1 0", "e tcopy 1", "e drop", "e reserve 1", "e set 1", "e drop", "e fini"]))
+    out += _nested() + _frags()
     # malformed op lines (both sides must answer bad-op)
     out.append(("b:badop", ["e new fb", "e set", "e set -1", "e set 01", "e set 18446744073709551616", "e emit id 1", "e emit id 1 +1",
                             "e emit id 1 -0", "e emit id 1 2147483648", "e emit id 1 -2147483649", "e emit msg 0g 1", "e emit msg 012 1",
                             "e hash zero:3 1", "e reserve x", "e fini now", "e new", "e new maybe",
                             "q push 00", "e emit none z", "e emit id 1 1zz", "e set 1"]))
+    return out
+
+
+def _nested():
+    """a handler that hands the message on with mpt_dispatch_hash: the inner outcome (registered / fallback / built-in /
+    nobody / no text / handler error) decides the bookkeeping of the outer mpt_dispatch_emit"""
+    out = []
+    start = djb2(b"start")
+    msgs = [("reg", "0420" + b"  start now".hex()), ("unreg", "0420" + b" stop".hex()), ("notext", "04202020"), ("hdr", "04"),
+            ("zero", "0400" + b"start".hex() + "00"), ("colon", "043a" + b" start:x".hex()), ("self", "0400" + "04"),
+            ("ws", "0409" + b" 'start' x".hex())]
+    for new in ("fb", "nofb", "builtin"):
+        for name, m in msgs:
+            for res in ("0", "1", "2", "3", "-5", "1z", "3z"):
+                for pre in ([], ["e emit id 4 1"], ["e emit id 1 1"]):
+                    e = "e emit cmd %s %s" % (m, res)
+                    out.append(("b:nest:%s:%s:%s:%d" % (new, name, res, len(pre)),
+                                ["e new " + new, "e set 1", "e set 4", "e set %d" % start, "e set %d" % djb2(b"\x04")] + pre +
+                                [e, "e emit none 0", e, "e clear %d" % start, e, "e emit none 0", "e clear 4", e, "e emit none 0", "e fini"]))
+    return out
+
+
+def _split_lines(msg, cuts, ids):
+    parts = []
+    prev = 0
+    for c in list(cuts) + [len(msg)]:
+        parts.append(msg[prev:c].hex() or "-")
+        prev = c
+    f = ",".join(parts)
+    return (["e new fb"] + ["e set %d" % i for i in ids] +
+            ["e hashf %s 2" % f, "e hashf %s -3" % f] + ["e clear %d" % i for i in ids] + ["e hashf %s 1z" % f, "e new nofb", "e hashf %s 1" % f])
+
+
+def _frags():
+    """command messages in fragments: every 2-split, every 3-split of short messages, selected splits of long ones"""
+    out = []
+    short = [(bytes.fromhex("0420") + b"  start now", [b"start"]), (bytes.fromhex("0400") + b"start\0x", [b"start"]),
+             (bytes.fromhex("043a") + b" \tstart:arg", [b"start"]), (bytes.fromhex("0000") + b"start", [b"start"]),
+             (bytes.fromhex("0409") + b" 'st art' x", [b"st art", b"'st art'", b"'st"]), (bytes.fromhex("0420") + b"   ", []),
+             (bytes.fromhex("0420") + b"go", [b"go"]), (bytes.fromhex("0100") + b"ab\0", [b"ab"])]
+    for msg, words in short:
+        ids = [djb2(w) for w in words]
+        for a in range(0, len(msg) + 1):
+            out.append(("b:frag2:%s:%d" % (msg.hex()[:14], a), _split_lines(msg, [a], ids)))
+            for b in range(a, len(msg) + 1):
+                out.append(("b:frag3:%s:%d:%d" % (msg.hex()[:14], a, b), _split_lines(msg, [a, b], ids)))
+    # around the 128-byte scratch buffer: the text continues in the next fragment (graphic separator: one reading;
+    # the white-space separator has one reading per prefix, so only a few of those)
+    for n in (126, 127, 128, 129, 130, 140):
+        for lead in (b"", b"  "):
+            for sep, tail in ((b":", b""), (b":", b":x"), (b" ", b" x")):
+                msg = bytes.fromhex("04") + sep + lead + b"a" * n + tail
+                ids = [djb2(b"a" * n)]
+                allcuts = ([2], [3], [2 + len(lead)], [2 + len(lead) + 1], [2 + len(lead) + n - 1], [2 + len(lead) + n], [1, 60], [4, 100, 131],
+                           [len(msg)], [2, 2 + len(lead) + 64])
+                if sep == b" ":
+                    allcuts = ([2 + len(lead) + 1], [4, 100, 131]) if n in (128, 129) else ()
+                for cuts in allcuts:
+                    cuts = sorted(min(c, len(msg)) for c in cuts)
+                    out.append(("b:fraglong:%d:%d:%s%d:%s" % (n, len(lead), sep.hex(), len(tail), "-".join(map(str, cuts))), _split_lines(msg, cuts, ids)))
     return out
 
 
@@ -180,7 +247,7 @@ def _random(tier, seed, scale):
             lines.append("e reserve %d" % r.choice([1, 1, 2, 8]))
         for _ in range(r.choice([6, 12, 25, 40])):
             kind = r.choice(["set", "set", "set", "cset", "clear", "clear", "emit", "emit", "emit", "msg", "none", "none", "hash", "reserve",
-                             "clearall", "fini", "bad", "drop", "tcopy"])
+                             "clearall", "fini", "bad", "drop", "tcopy", "cmd", "hashf"])
             res = r.choice(["0", "0", "1", "1", "2", "3", "-1", "-4", "1z", "3z", "4", "5", "%d" % r.randrange(-20, 70000)]
                            + (["%dz" % r.randrange(0, 8)] if r.random() < 0.2 else []))
             i = r.choice(ids)
@@ -192,12 +259,23 @@ def _random(tier, seed, scale):
                 lines.append("e emit msg %s %s" % (gen.hexs([r.choice([0, 1, 2, 3, 5, 127, 128, 255])] * r.choice([0, 1, 1, 1, 3])), res))
             elif kind == "none":
                 lines.append("e emit none %s" % res)
-            elif kind == "hash":
+            elif kind in ("hash", "cmd", "hashf"):
                 t = r.choice(texts)
                 hdr = r.choice([b"\0\0", b"\x04\0", b"\x04:", b"\x04;", b"\x01\x05", b"\x04 ", b"\x04\t", b"\x04\xff"])
                 tail = r.choice([b"", b"\0", b":rest", b"\0junk", b";x", b" arg", b"' q'", b"\\ x"])
                 lead = r.choice([b"", b"", b" ", b"\t "]) if hdr[0] == 4 and hdr[1] else b""
-                lines.append("e hash %s %s" % ((hdr + lead + t + tail).hex(), res))
+                m = hdr + lead + t + tail
+                if kind == "hash":
+                    lines.append("e hash %s %s" % (m.hex(), res))
+                elif kind == "cmd":
+                    if r.random() < 0.7:
+                        lines.append("e set %d" % m[0])
+                    lines.append("e emit cmd %s %s" % (m.hex(), res))
+                    lines.append("e emit none 0")
+                else:
+                    cuts = sorted(r.randrange(0, len(m) + 1) for _ in range(r.choice([1, 1, 2, 3])))
+                    parts = [m[a:b].hex() or "-" for a, b in zip([0] + cuts, cuts + [len(m)])]
+                    lines.append("e hashf %s %s" % (",".join(parts), res))
             elif kind == "reserve":
                 lines.append("e reserve %d" % r.choice([0, 1, 1, 2, 4, 8, 9]))
             elif kind == "clearall":
@@ -236,7 +314,7 @@ class _XX:
         out = []
         alpha = ["xe set 1", "xe set 2", "xe set 0", "xe clear 1", "xe clear 2", "xe get 1", "xe get 0", "xe setdef 1", "xe setdef 2", "xe setdef 0",
                  "xe seterr", "xe reserve 1", "xe emit id 1 1", "xe emit id 1 0", "xe emit id 2 3z", "xe emit id 5 0", "xe emit msg 01 1",
-                 "xe emit none 0", "xe emit none 1", "xe hash 000061 2", "xe set %d" % HA, "xe del"]
+                 "xe emit none 0", "xe emit none 1", "xe hash 000061 2", "xe set %d" % HA, "xe del", "xe emit cmd 010061 3", "xe emit cmd 0200 1"]
         for new in ("fb", "nofb", "builtin"):
             for ln in range(1, (2 if tier == "quick" else 3) + 1):
                 for combo in itertools.product(alpha, repeat=ln):
@@ -282,7 +360,7 @@ extra_parts = [_XX]
 def scripts(tier, seed, scale=1):
     out = []
     full = _alphabet_full()
-    small = _alphabet_small()
+    small = _alphabet_small(tier)
     for new in ("fb", "nofb", "builtin"):
         top_full = 2 if tier == "quick" else 3
         for ln in range(1, top_full + 1):
